@@ -50,12 +50,19 @@ def concatenate(fields, target={}, resources=None):
 
         # Create the schema for the target resource
         needed_fields = list(fields.keys())
+        missing_values = []
+        declares_missing_values = False
         for resource in package.pkg.descriptor['resources']:
             if not matcher.match(resource['name']):
                 continue
 
             schema = resource.get('schema', {})
             pk = schema.get('primaryKey', [])
+            # the rows keep the missing value tokens of their source schema
+            declares_missing_values = declares_missing_values or 'missingValues' in schema
+            for token in schema.get('missingValues', ['']):
+                if token not in missing_values:
+                    missing_values.append(token)
             for field in schema.get('fields', []):
                 orig_name = field['name']
                 if orig_name in field_mapping:
@@ -70,6 +77,8 @@ def concatenate(fields, target={}, resources=None):
 
         if len(target['schema']['primaryKey']) == 0:
             del target['schema']['primaryKey']
+        if declares_missing_values:
+            target['schema']['missingValues'] = missing_values
 
         for name in needed_fields:
             target['schema']['fields'].append(dict(
